@@ -487,6 +487,16 @@ Section Walk.
   Qed.
 End Walk.
 
+(* The exit status of a director run is that of its last finalized phase. *)
+Lemma last_phase_rc_snoc cur phases i : last_phase_rc cur (phases ++ [i]) = report_unbuilt i.
+Proof. revert cur. induction phases as [|j r IH]; intros cur; cbn; [reflexivity|apply IH]. Qed.
+
+Lemma serve_phases_last inv phases i : serve_phases inv (phases ++ [i]) = serve_rc inv i.
+Proof. unfold serve_phases, serve_rc. destruct inv; [reflexivity|apply last_phase_rc_snoc]. Qed.
+
+Lemma serve_no_phase_not_zero : serve_phases false [] = rc_PENDING /\ serve_phases false [] <> 0.
+Proof. split; [reflexivity|discriminate]. Qed.
+
 (* ------------------------------------------------------------------------------------------ *)
 (* (b) The snapshot level                                                                      *)
 (* ------------------------------------------------------------------------------------------ *)
